@@ -35,7 +35,11 @@ theorem qName_eq (d : Db) (c : Int) :
   rw [absF_nameOf]
   cases get d.pl c <;> rfl
 
-theorem qDescendants_eq (d : Db) (c : Int) : qDescendants d c = (absF d).descendants c := descendantIds_eq d c
+/-- crate::descendants (the recursive view) terminates on a well-formed table and returns exactly the Spec's
+descendants — as a set: the order within a level is SQLite's scan order. -/
+theorem qDescendants_eq {d : Db} (hW : Forest.Wf (absF d)) (c : Int) :
+    ∃ l, qDescendants d c = .ok l ∧ ∀ x, x ∈ l ↔ x ∈ (absF d).descendants c :=
+  descendantIds_ok hW c
 
 theorem qByName_eq (d : Db) (n : Bytes) : qByName d n = (absF d).byName n := by
   unfold qByName Forest.byName
@@ -81,13 +85,12 @@ theorem parentQ_iff (d : Db) (a b : Int) : ParentQ d a b ↔ Forest.parentRel (a
     have hl : (absF d).live a = true := Forest.live_iff.mpr (Forest.live_of_parentOf h)
     simp [hl, h]
 
-theorem mem_qDescendants_iff (d : Db) (c x : Int) :
-    x ∈ qDescendants d c ↔ Relation.TransGen (ParentQ d) x c := by
+theorem mem_descSet_iff (d : Db) (c x : Int) :
+    x ∈ descSet d c ↔ Relation.TransGen (ParentQ d) x c := by
   have hrel : ParentQ d = Forest.parentRel (absF d) := by
     funext a b; exact propext (parentQ_iff d a b)
   rw [hrel, ← Forest.isAncestor_iff_transGen]
-  unfold qDescendants
-  rw [mem_descendantIds]
+  rw [mem_descSet]
   constructor
   · exact fun h => h.2
   · intro h
@@ -143,11 +146,12 @@ theorem kids_perm_children {S : Ord} {d : Db} (hC : ChInv S d) {c : Int} (hc : c
 /-! ### rejections -/
 
 /-- Re-parenting under itself or under one of its own descendants is rejected, leaving everything unchanged. -/
-theorem setParent_cycle_rejected {d : Db} (hP : PlInv d) (c q : Int) (h : q = c ∨ q ∈ qDescendants d c) :
+theorem setParent_cycle_rejected {d : Db} (hP : PlInv d) (c q : Int) (h : q = c ∨ q ∈ descSet d c) :
     step d (.setParent c (some q)) = (d, .throw (exn "crate_invalid_parent")) := by
   rcases h with rfl | h
   · simp [step]
-  · obtain ⟨hq, hanc⟩ := mem_descendantIds.mp h
+  · obtain ⟨hq, hanc⟩ := mem_descSet.mp h
+    obtain ⟨ds, hds, hmem⟩ := descendantIds_ok hP.wf c
     have hqc : q ≠ c := by
       rintro rfl; rw [hP.wf.acyclic] at hanc; exact absurd hanc (by simp)
     have hcl : c ∈ ids d.pl := by rw [← absF_ids]; exact hP.wf.ancestor_live hanc
@@ -157,8 +161,25 @@ theorem setParent_cycle_rejected {d : Db} (hP : PlInv d) (c q : Int) (h : q = c 
       | some row => exact ⟨row, rfl⟩
     have h1 : (some q == some c) = false := by simpa using hqc
     have h2 : plExists d q = true := plExists_iff.mpr hq
-    have h3 : q ∈ descendantIds d.pl c := h
-    simp [step, h1, hg, h2, h3]
+    have h3 : q ∈ ds := (hmem q).mpr h
+    simp [step, h1, hg, h2, hds, h3]
+
+/-- remove_crate of a live crate: the forest loses exactly the subtree. -/
+theorem absF_removeCrate {d : Db} (hI : PlInv d) {c : Int} (hl : (absF d).live c = true) :
+    absF (step d (.removeCrate c)).1 = Forest.removeSubtree (absF d) c := by
+  cases fstep hI.wf (.removeCrate c) with
+  | throws e hs hv =>
+    exfalso
+    rcases hv (.remove c) rfl with h | h
+    · exact h 0 _ (spec_remove_acc 0 hl)
+    · simp [afterOk] at h
+  | okF out fop h2 hf hacc _ _ =>
+    simp only [forestOp, Option.some.injEq] at hf
+    subst hf
+    rw [spec_remove_acc _ hl] at hacc
+    injection hacc with e
+    exact e.symm
+  | okN _ _ hf _ _ => simp [forestOp] at hf
 
 theorem plSeq_mono_run {d : Db} (hI : PlInv d) (ops : List Op) : d.plSeq ≤ (run d ops).plSeq := by
   induction ops generalizing d with
